@@ -72,9 +72,25 @@ def integrate_tail_frequency_distribution(
 
     # find the location of the lower boundary of the integration domain. THis is where
     # loglog_mu = 0
-    x0 = numba_newton_raphson(
-        log_dimensionless_critical_height, np.log(0.01), args, (-10, 0), verbose=False
-    )
+    try:
+        # Note: arguments are passed by position; a keyword-argument call inside a
+        # jitted try block ends up in the except branch.
+        x0 = numba_newton_raphson(
+            log_dimensionless_critical_height, np.log(0.01), args, (-10, 0)
+        )
+    except:  # noqa: E722 (numba only supports a bare except)
+        # The solver cannot converge when the logarithm of the dimensionless critical
+        # height has no zero on (-10, 0), which happens for an effective Charnock
+        # parameter z0 g / u*^2 > ~3.6 (low wind, large roughness). Then Z >= 1 for
+        # every wave age and there is no energy transfer (Janssen 1991, eq. 18): the
+        # tail integral is zero. Any other solver failure is still an error.
+        x = np.linspace(-10.0, 0.0, 201)
+        log_height = log_dimensionless_critical_height(
+            x, effective_charnock, vonkarman_constant, wave_age_tuning_parameter
+        )
+        if np.min(log_height) > 0.0:
+            return 0.0
+        raise ValueError("no convergence")
 
     log_lower_bound = np.log(lower_bound)
 
